@@ -250,7 +250,7 @@ func genC17(seed int64, tier string) *Scenario {
 	r := rand.New(rand.NewSource(seed))
 	sc := &Scenario{Prop: "C17", Seed: seed, Knobs: map[string]interface{}{}, Sched: Canonical()}
 	sc.Files = c17Workspace(r)
-	mode := []string{"filter", "filter", "channel", "history", "json", "json", "hostile", "hostile-json", "first-swallowed"}[r.Intn(9)]
+	mode := []string{"filter", "filter", "channel", "history", "json", "json", "hostile", "hostile-json", "first-swallowed", "json-project"}[r.Intn(10)]
 	sc.Knobs["mode"] = mode
 	switch mode {
 	case "filter", "channel":
@@ -305,6 +305,12 @@ func genC17(seed int64, tier string) *Scenario {
 		if r.Intn(4) == 0 {
 			sc.Knobs["read_fault"] = []string{"eio", "eacces", "torn", "empty"}[r.Intn(4)]
 		}
+	case "json-project":
+		// luahelper.json with a project entry file whose required module is missing at start-up and
+		// created later (watcher event): with any ignore configuration the result must be that of a
+		// fresh start on the final disk with the same luahelper.json
+		sc.Knobs["config"] = randC17Config(r, true)
+		sc.Knobs["late"] = []string{"lib/def.lua", "lib/helper.lua"}[r.Intn(2)]
 	case "hostile":
 		sc.Knobs["settings"] = c17Hostile[r.Intn(len(c17Hostile))]
 		sc.Knobs["at_init"] = r.Intn(2) == 0
@@ -610,6 +616,62 @@ func checkC17(t *testing.T, sc *Scenario) *Verdict {
 		}
 		v.Shape = fmt.Sprintf("history n=%d view=%x", len(cs), hashString(hr.ViewString()))
 		v.NonTrivial = true
+	case "json-project":
+		c := knobConfig(sc.Knobs["config"])
+		late, _ := sc.Knobs["late"].(string)
+		// the project: entry src/entry.lua requires def and helper; src/other.lua (also required) reads
+		// a global of helper inside a function
+		proj := map[string]string{
+			"src/entry.lua":  "local d = require(\"def\")\nlocal h = require(\"helper\")\nlocal o = require(\"other\")\nprint(d, h, o)\ncrossfn(1, 2)\n",
+			"src/other.lua":  "function other_fn()\n  return helper_val, crossvar\nend\nprint(nowhere_at_all)\n",
+			"lib/helper.lua": "helper_val = 1\nlocal unused_in_helper = 2\n",
+		}
+		var files []File
+		for _, f := range sc.Files {
+			if _, over := proj[f.Path]; !over {
+				files = append(files, f)
+			}
+		}
+		var names []string
+		for n := range proj {
+			names = append(names, n)
+		}
+		sort.Strings(names)
+		for _, n := range names {
+			files = append(files, File{Path: n, Data: Bytes(proj[n])})
+		}
+		var lateData Bytes
+		var start []File
+		for _, f := range files {
+			if f.Path == late {
+				lateData = f.Data
+				continue
+			}
+			start = append(start, f)
+		}
+		if lateData == nil {
+			v.Invalid = true
+			return v
+		}
+		var jm map[string]interface{}
+		json.Unmarshal([]byte(c.jsonFile()), &jm)
+		jm["ProjectFiles"] = []string{"src/entry.lua"}
+		jb, _ := json.Marshal(jm)
+		cfgFile := File{Path: "luahelper.json", Data: Bytes(jb)}
+		h := run(&Scenario{Files: append(append([]File{}, start...), cfgFile), InitOpts: allEnabled().initOpts(),
+			Ops: []Op{{Kind: "fswrite", Path: late, Data: lateData}, {Kind: "deliver"}}})
+		if h.Outcome != OutOK {
+			return fail(h, "json-project history")
+		}
+		fr := run(&Scenario{Files: append(append([]File{}, files...), cfgFile), InitOpts: allEnabled().initOpts()})
+		if fr.Outcome != OutOK {
+			return fail(fr, "json-project fresh")
+		}
+		if vv := cmp("c17-history-differs-from-fresh", "json-project late-module", h.View, fr.View, ""); vv != nil {
+			return vv
+		}
+		v.Shape = fmt.Sprintf("json-project %v %v %v %s view=%x", c.Off, c.IgnErr, c.FileTypes, late, hashString(h.ViewString()))
+		v.NonTrivial = len(fr.View) > 0
 	case "json":
 		c := knobConfig(sc.Knobs["config"])
 		withJSON := func(fs []File, text string) []File {
